@@ -8,16 +8,16 @@ import (
 
 // Object identifiers (Doc 9303-11 §9.2, BSI TR-03110-3 A.1).
 const (
-	oidBSI    = "0.4.0.127.0.7"
-	OIDPK     = oidBSI + ".2.2.1" // id-PK: .1 DH, .2 ECDH
-	OIDTA     = oidBSI + ".2.2.2" // id-TA
-	OIDCA     = oidBSI + ".2.2.3" // id-CA: .1 DH, .2 ECDH, then .1 3DES .2 AES-128 .3 AES-192 .4 AES-256
-	OIDPACE   = oidBSI + ".2.2.4" // id-PACE: .1 DH-GM .2 ECDH-GM .3 DH-IM .4 ECDH-IM .6 ECDH-CAM, then cipher
-	OIDAA     = "2.23.136.1.1.5"  // id-icao-mrtd-security-aaProtocolObject
-	OIDEFDIR  = "2.23.136.1.1.13" // id-EFDIR
-	OIDECDSA  = oidBSI + ".1.1.4.1" // ecdsa-plain-signatures: .1 SHA-1 .2 SHA-224 .3 SHA-256 .4 SHA-384 .5 SHA-512
-	OIDSecurityObject    = oidBSI + ".3.2.1" // id-SecurityObject (EF.CardSecurity eContentType)
-	OIDLDSSecurityObject = "2.23.136.1.1.1"  // id-icao-mrtd-security-ldsSecurityObject
+	oidBSI               = "0.4.0.127.0.7"
+	OIDPK                = oidBSI + ".2.2.1"   // id-PK: .1 DH, .2 ECDH
+	OIDTA                = oidBSI + ".2.2.2"   // id-TA
+	OIDCA                = oidBSI + ".2.2.3"   // id-CA: .1 DH, .2 ECDH, then .1 3DES .2 AES-128 .3 AES-192 .4 AES-256
+	OIDPACE              = oidBSI + ".2.2.4"   // id-PACE: .1 DH-GM .2 ECDH-GM .3 DH-IM .4 ECDH-IM .6 ECDH-CAM, then cipher
+	OIDAA                = "2.23.136.1.1.5"    // id-icao-mrtd-security-aaProtocolObject
+	OIDEFDIR             = "2.23.136.1.1.13"   // id-EFDIR
+	OIDECDSA             = oidBSI + ".1.1.4.1" // ecdsa-plain-signatures: .1 SHA-1 .2 SHA-224 .3 SHA-256 .4 SHA-384 .5 SHA-512
+	OIDSecurityObject    = oidBSI + ".3.2.1"   // id-SecurityObject (EF.CardSecurity eContentType)
+	OIDLDSSecurityObject = "2.23.136.1.1.1"    // id-icao-mrtd-security-ldsSecurityObject
 	oidSignedData        = "1.2.840.113549.1.7.2"
 )
 
@@ -457,6 +457,16 @@ func syntheticSPKI(alg string, bits, seed int) *SPKISpec {
 		}
 		n := (bits + 7) / 8
 		return &SPKISpec{Alg: AlgIDSpec{OID: "1.2.840.10045.2.1", Params: mustOID(oid)}, Key: append([]byte{4}, fillBytes(2*n, seed)...)}
+	case "ec-explicit":
+		if bits == 0 {
+			bits = 256
+		}
+		n := (bits + 7) / 8
+		// ECParameters (X9.62): version, fieldID, curve, base, order, cofactor
+		params := derSeq(derInt(1), derSeq(mustOID("1.2.840.10045.1.1"), posInt(n)),
+			derSeq(derOctets(fillBytes(n, seed+1)), derOctets(fillBytes(n, seed+2))),
+			derOctets(append([]byte{4}, fillBytes(2*n, seed+3)...)), posInt(n), derInt(1))
+		return &SPKISpec{Alg: AlgIDSpec{OID: "1.2.840.10045.2.1", Params: params}, Key: append([]byte{4}, fillBytes(2*n, seed)...)}
 	case "dh":
 		if bits == 0 {
 			bits = 1024
